@@ -175,7 +175,8 @@ impl<'a> SendShim<'a> {
         }
     }
     pub(super) fn set_multicast_if_v4(&self, a: &Ipv4Addr) -> io::Result<()> {
-        if verif::current().is_some() {
+        if let Some(ctl) = verif::current() {
+            ctl.set_mcast_if_v4(*a);
             return Ok(());
         }
         self.real.set_multicast_if_v4(a)
@@ -197,6 +198,7 @@ impl<'a> SendShim<'a> {
             src_ip: self.src_ip,
             dst: addr.as_socket().expect("inet dest"),
             data: buf.to_vec(),
+            mcast_if_v4: None,
         });
         Ok(buf.len())
     }
